@@ -325,7 +325,7 @@ def gen_case(rng):
         "real": [[enc(v), real_ids[ID[v]]] for v in UNIVERSE],
         "kern": [[enc(UNIVERSE[POS_OF_ID[i][0]]), kern[i]] for i in sup1],
         "a": a, "b": b, "ab_int": ab_int, "default_real": default_real, "shadow": shadow,
-        "gdraws": gdraws, "neg": [enc(UNIVERSE[neg[0]]), enc(UNIVERSE[neg[1]])],
+        "gdraws": gdraws, "mixed_order": [rng.randrange(64) for _ in range(12)], "neg": [enc(UNIVERSE[neg[0]]), enc(UNIVERSE[neg[1]])],
         "script": script, "seed": rng.choice([0, 0, 1, rng.randrange(2**32), rng.randrange(2**32)]), "nseeded": 6,
         "_proj_ids": proj_ids, "_like": like_ids, "_real": real_ids,
     }
@@ -547,6 +547,26 @@ def oracle(case, res):
                 bad["sample"] = "sample raises %s on a distribution of positive mass" % dr["error"]
             elif m1.get(eid(dr["event"]), 0) <= 0:
                 bad["sample"] = "sample returned an event of probability zero"
+        mx = res.get("mixed") or {}
+        if "error" in mx or mx.get("same") is False:
+            bad["sample-seed"] = "equally seeded generators gave different sample sequences"
+        for nm, ev in mx.get("seq", []):
+            if nm == "d1":
+                mm = m1
+            elif nm == "u1":        # the one-point uniform distribution on d1's first listed event
+                mm = {eid(res["d1"]["support"][0]): F(1)}
+            elif nm == "d2":
+                mm = m2
+            else:
+                jx = int(nm[1:])
+                ks, ki = case["kern"][jx][1], res["kern_items"][jx][1]
+                mm = measure(ks, ki if isinstance(ki, list) else [])
+            if not (mm and sum(mm.values()) > 0 and all(v >= 0 for v in mm.values())):
+                continue
+            if isinstance(ev, str):
+                bad["sample"] = "sample raises %s on a distribution of positive mass" % ev
+            elif mm.get(eid(ev), 0) <= 0:
+                bad["sample"] = "sample returned an event of probability zero"
         more = [d_ for d_ in res.get("gdraws", [])]
         kd = res.get("kdraw") or {}
         more += [{"event": e} for e in kd.get("events", [])] + ([kd] if "event" in kd else [])
@@ -722,7 +742,8 @@ def run(ctx):
            "uniform_str_support_nonmember_probes": 0, "uniform_str_support_nonmember_anomalies": 0,
            "model_skipped_subnormal_floats": 0, "softmax_exact_typed_scores": 0,
            "softmax_exact_scores_beyond_float_integer_range": 0, "model_evaluations_retried": 0,
-           "model_evaluation_failed_judged_by_oracle": 0, "and_normaliser_underflows_in_floats": 0}
+           "model_evaluation_failed_judged_by_oracle": 0, "and_normaliser_underflows_in_floats": 0,
+           "generator_consumption_drift": 0, "sample_mirror_drift": 0, "sample_k_shape_drift": 0, "mixed_sequence_draws": 0}
     reps = {}
     FALSY = {ID[v] for v in UNIVERSE if not v}
 
@@ -788,8 +809,12 @@ def run(ctx):
                 log = list(sd["log"])
                 uses = 0 if (case["d1"]["kind"] == "det" or (case["d1"]["kind"] != "uniform" and res["d1"]["len"] == 1)) else 1
                 if len(log) != uses * len(sd["seq"]):
-                    viol("C11:sample:generator-consumption", i, {"log": log, "expected_draws": uses * len(sd["seq"])}, False)
+                    # how many numbers a sample() call consumes is not specified by the property: drift.
+                    # The recorded stream can then not be aligned with the mirror: the seeded draws are
+                    # judged by the property's clauses only.
+                    cnt["generator_consumption_drift"] += 1
                     log = []
+                    uses = 1
                 for j in range(len(sd["seq"]) if (log or uses == 0) else 0):
                     if uses == 0:
                         draws.append((F(0), 0))
@@ -994,6 +1019,10 @@ def run(ctx):
         nops += 4
 
         # ---- sampling ----
+        # GATING are the three clauses of the property: (1) only events of positive probability are returned,
+        # (2) a one-point distribution returns its sole event, (3) equally seeded generators give identical
+        # sequences.  Which event a given random number selects, and how many numbers a call consumes, is
+        # compared with the mirror model (random.choices' rule) as DRIFT only.
         floaty = case["d1"]["kind"] == "softmax" or any(
             F(w).denominator & (F(w).denominator - 1) for w in case["d1"].get("weights", []))
         nscript = len(case["script"])
@@ -1002,96 +1031,120 @@ def run(ctx):
         for _, p in items1:
             acc += p
             cum.append(acc)
+        single = len(items1) == 1
+        in_q = bool(items1) and mass1 > 0 and all(p >= 0 for _, p in items1)
+
+        def judge(ev, what):
+            try:
+                k_ = eid(ev)
+            except KeyError:
+                problems["sample"] = "%s returned %r, not an event of the universe" % (what, ev)
+                return None
+            if in_q and probs1[k_] <= 0:
+                problems["sample"] = "%s returned event id %s of probability zero" % (what, k_)
+            if in_q and single and k_ != items1[0][0]:
+                problems["sample"] = "%s on a one-point distribution did not return its sole event" % what
+            return k_
+
+        def mirror(k_, md, u, what):
+            if md is None or k_ is None or k_ == md[1]:
+                return
+            inexact = floaty or F(float(u) * float(acc)) != u * acc     # u*total is rounded in floats
+            if inexact and acc > 0 and any(abs(u * acc - c) <= F(1, 10**12) * max(1, acc) for c in cum):
+                cnt["float_boundary_ambiguous"] += 1
+            else:
+                cnt["sample_mirror_drift"] += 1
+
         py_draws = list(res["draws"])
         sd = res["seeded"]
         if "error" not in sd:
             py_draws += [{"event": e} for e in sd["seq"]]
-            if sd["seq"] != sd["plain_seq"] and case["d1"]["kind"] != "uniform":
-                pass    # a plain Random and the recording subclass draw differently only through choice()
+            for e in sd["plain_seq"]:
+                judge(e, "sample (seeded generator)")
             if not (sd["same_recording"] and sd["same_plain"]):
                 problems["sample-seed"] = "equally seeded generators gave different sample sequences"
-        elif mass1 > 0:
+        elif in_q:
             problems["sample"] = "seeded sampling raises %s" % sd["error"]
-        for j, (pd, md) in enumerate(zip(py_draws, m_draws)):
-            u, ix = draws_of[i][j]
+        for j, pd in enumerate(py_draws):
+            md = m_draws[j] if j < len(m_draws) else None
+            u, ix = draws_of[i][j] if j < len(draws_of[i]) else (F(0), 0)
             if j < nscript:
                 cnt["scripted_draws"] += 1
             else:
                 cnt["seeded_draws"] += 1
             if "error" in pd:
-                if md is not None:
-                    problems["sample"] = "sample raises %s, model returns event id %s" % (pd["error"], md[1])
+                if in_q:
+                    problems["sample"] = "sample raises %s on a distribution of positive mass" % pd["error"]
                 continue
-            if md is None:
-                problems["sample"] = "sample returned %r, model says random.choices raises" % (pd["event"],)
-                continue
-            if len(items1) == 1 and case["d1"]["kind"] != "uniform":
+            k_ = judge(pd["event"], "sample")
+            if single and case["d1"]["kind"] != "uniform":
                 cnt["single_support_shortcuts"] += 1
-                if pd.get("used", 0) != 0:
-                    problems["sample"] = "one-point distribution consumed randomness"
+            if j < nscript and single and pd.get("used", 0) != (1 if case["d1"]["kind"] == "uniform" else 0):
+                cnt["generator_consumption_drift"] += 1
             if acc > 0 and any(u * acc == c for c in cum[:-1]):
                 cnt["boundary_draws"] += 1
-            if eid(pd["event"]) != md[1]:
-                inexact = floaty or F(float(u) * float(acc)) != u * acc     # u*total is rounded in floats
-                if inexact and acc > 0 and any(abs(u * acc - c) <= F(1, 10**12) * max(1, acc) for c in cum):
-                    cnt["float_boundary_ambiguous"] += 1
-                    continue
-                problems["sample"] = "draw %d (u=%s, index=%d): msdm %r, model event id %s" % (j, float(u), ix, pd["event"], md[1])
-            elif mass1 > 0 and all(p >= 0 for _, p in items1) and probs1[md[1]] <= 0:
-                problems["sample"] = "sampled event id %s has probability zero" % md[1]
+            if j < len(m_draws):
+                mirror(k_, md, u, "sample")
         nops += 1
 
         # ---- the generic FiniteDistribution.sample on every kind, k = 1 and k = 3 ----
         gus = [F(u) for u in case.get("gdraws", [])]
-        single = len(items1) == 1
         for j, (pd, md, u) in enumerate(zip(res.get("gdraws", []), m_gdraws, gus)):
             cnt["generic_draws"] += 1
             if "error" in pd:
-                if md is not None:
-                    problems["sample-generic"] = "FiniteDistribution.sample raises %s, model returns event id %s" % (pd["error"], md[1])
+                if in_q:
+                    problems["sample"] = "FiniteDistribution.sample raises %s on a distribution of positive mass" % pd["error"]
                 continue
-            if md is None:
-                problems["sample-generic"] = "FiniteDistribution.sample returned %r, model says random.choices raises" % (pd["event"],)
-                continue
+            k_ = judge(pd["event"], "FiniteDistribution.sample")
             if acc > 0 and any(u * acc == c for c in cum[:-1]):
                 cnt["boundary_draws"] += 1
             if acc > 0 and not single and any(0 < abs(u * acc - c) <= F(1, 2**39) * acc for c in cum[:-1]):
                 cnt["near_boundary_draws"] += 1
             if pd.get("used", 0) != (0 if single else 1):
-                problems["sample-generic"] = "generator consumption %s (one-point support: %s)" % (pd.get("used"), single)
-            if eid(pd["event"]) != md[1]:
-                inexact = floaty or F(float(u) * float(acc)) != u * acc
-                if inexact and acc > 0 and any(abs(u * acc - c) <= F(1, 10**12) * max(1, acc) for c in cum):
-                    cnt["float_boundary_ambiguous"] += 1
-                    continue
-                problems["sample-generic"] = "generic draw %d (u=%s): msdm %r, model event id %s" % (j, float(u), pd["event"], md[1])
+                cnt["generator_consumption_drift"] += 1
+            mirror(k_, md, u, "FiniteDistribution.sample")
         kd = res.get("kdraw")
         if kd is not None and gus:
             cnt["k_draws"] += 1
-            want = [md[1] if md is not None else None for md in m_gdraws]
             if "error" in kd:
-                if all(w is not None for w in want):
-                    problems["sample-k"] = "sample(k=%d) raises %s" % (len(gus), kd["error"])
-            elif single:
-                if "event" not in kd or eid(kd["event"]) != items1[0][0] or kd["used"] != 0:
-                    problems["sample-k"] = "one-point support with k > 1: expected the bare event without consuming randomness"
-            elif None in want:
-                problems["sample-k"] = "sample(k) returned although random.choices must raise"
-            elif "events" not in kd or kd["used"] != len(gus):
-                problems["sample-k"] = "sample(k=%d) did not return a list from %d draws" % (len(gus), len(gus))
+                if in_q:
+                    problems["sample"] = "sample(k=%d) raises %s on a distribution of positive mass" % (len(gus), kd["error"])
             else:
-                got = [eid(e) for e in kd["events"]]
-                amb = False
-                for g_, w_, u in zip(got, want, gus):
-                    if g_ != w_:
-                        inexact = floaty or F(float(u) * float(acc)) != u * acc
-                        if inexact and any(abs(u * acc - c) <= F(1, 10**12) * max(1, acc) for c in cum):
-                            amb = True
-                        else:
-                            problems["sample-k"] = "sample(k=%d): msdm ids %s, model %s" % (len(gus), got, want)
-                if amb:
-                    cnt["float_boundary_ambiguous"] += 1
-        nops += 2
+                evs = kd["events"] if "events" in kd else [kd["event"]]
+                got = [judge(e, "sample(k=%d)" % len(gus)) for e in evs]
+                if ("events" in kd) == single or (not single and (len(evs) != len(gus) or kd["used"] != len(gus))):
+                    cnt["sample_k_shape_drift"] += 1        # bare event for one-point supports, a list of k otherwise
+                elif not single:
+                    for g_, md, u in zip(got, m_gdraws, gus):
+                        mirror(g_, md, u, "sample(k)")
+        # ---- one shared generator, several distributions, run twice from equal seeds ----
+        mx = res.get("mixed")
+        if mx is not None:
+            if "error" in mx:
+                problems["sample-seed"] = "mixed sampling sequence raises %s" % mx["error"]
+            else:
+                cnt["mixed_sequence_draws"] += len(mx["seq"])
+                if not mx["same"]:
+                    problems["sample-seed"] = "equally seeded generators gave different sequences when several distributions share the generator"
+                kspec = [v for _, v in case["kern"]]
+                kit = [v for _, v in res["kern_items"]]
+                for nm, ev in mx["seq"]:
+                    if nm == "d1":
+                        mm = {x: p for x, p in items1}
+                    elif nm == "d2":
+                        mm = {x: p for x, p in v2[0]}
+                    elif nm == "u1":
+                        mm = {eid(res["d1"]["support"][0]): F(1)}
+                    else:
+                        jx = int(nm[1:])
+                        mm = measure(kspec[jx], kit[jx] if isinstance(kit[jx], list) else [])
+                    ok_q = bool(mm) and sum(mm.values()) > 0 and all(p >= 0 for p in mm.values())
+                    if isinstance(ev, str):
+                        if ok_q:
+                            problems["sample"] = "sample of %s raises %s on a distribution of positive mass" % (nm, ev)
+                    elif ok_q and mm.get(eid(ev), 0) <= 0:
+                        problems["sample"] = "sample of %s returned an event of probability zero" % nm
+        nops += 3
 
         # ---- second-order uses of the same objects ----
         r2 = res.get("isnorm_custom")
